@@ -253,7 +253,13 @@ fn mom_cases(rep: &mut Report, rng: &mut Rng, n: u64) {
           rep.nontrivial(&case);
         }
       }
-      (d, v) => rep.violation("from_fits_multiordermap fails on a well-formed multi-order map", &case, &format!("{:?}", v), &format!("{:?}", d.map(|x| ranges_str(&x))), "C20"),
+      // The values of a FITS multi-order map are density x area with area = pi / 3 / 4^depth: they are not
+      // dyadic, their sums are rounded, and a threshold within one rounding error of a cumulative sum can
+      // make the selection itself fail its internal assertions.  That is outside the property's domain
+      // ("dyadic values, so sums are exact"): when the selection called DIRECTLY on the rows fails, nothing
+      // is decided about the front end (counted); it is judged only on maps the selection accepts.
+      (Err(_), _) => rep.count("mom-fits:selection-fails-on-rounded-values(not judged)"),
+      (Ok(d), v) => rep.violation("from_fits_multiordermap fails on a multi-order map the selection accepts", &case, &format!("{:?}", v), &ranges_str(&d), "C20"),
     }
   }
 }
